@@ -190,6 +190,10 @@ def execute(factory, params, prefix, want_labels=False):
         ex.extra = getattr(sc, 'extra', None)
     finally:
         sc.teardown()
+        lp = getattr(getattr(sc, 'world', None), 'loop', None)
+        if getattr(lp, 'survivors', 0):
+            ex.violations = list(ex.violations) + [('livelock', '%d task(s) of the code under test survive 50 rounds of cancellation when the '
+                                                     'world is torn down (a loop that swallows CancelledError)' % lp.survivors, {'trigger': 'teardown'})]
     return ex
 
 
@@ -350,13 +354,19 @@ def run_search(factory, params_list, bound, workers=16, seed=0, budget_per_subtr
             todo.append((s['params'], [int(c) for c in s['choices']]))
     for params in params_list[::max(1, len(params_list) // 5)][:5]:
         todo.append((params, []))
-    for params, choices in todo[:40]:
+    nviol = len(viols[:20])
+    for k, (params, choices) in enumerate(todo[:40]):
         a = execute(factory, params, choices)
         b = execute(factory, params, choices)
         gate['replayed'] += 1
         if a.choices != b.choices or a.menus != b.menus or \
                 dumps(a.obs, sort_keys=True) != dumps(b.obs, sort_keys=True) or \
                 dumps(a.violations, sort_keys=True) != dumps(b.violations, sort_keys=True):
+            if k < nviol and (a.violations or b.violations):
+                # a schedule that violates the property and does not replay identically: the tree under test is already
+                # reported as broken; the divergence is recorded, not raised (it has never occurred on a tree that passes)
+                gate['diverging_violations'] = gate.get('diverging_violations', 0) + 1
+                continue
             gate['mismatches'] += 1
     if gate['mismatches']:
         raise HarnessError('NONDETERMINISM: %d of %d replays diverged' % (gate['mismatches'], gate['replayed']))
